@@ -1,9 +1,18 @@
 """Registry: property id -> how it is checked."""
 import props_spline as ps
+import props_ppoly as pp
+import props_opt as po
 
 RULE_SPLINE = ('structure cells (order x N-class x D-class x time mode [x variant]) enumerated, data random from VERIF_SEED '
                '(80% short dyadic rationals, 20% full-mantissa doubles); a cell counts as distinct non-trivial when its '
                'structure tuple is new and its data are non-degenerate (durations differ, waypoints non-collinear by construction)')
+
+RULE_PP = ('objects enumerated over dimension x fixed/dynamic order x coefficient count x segment count (crossing the static-table limit 8 and '
+           'the linear/binary search threshold 32); times on breakpoints, one ulp either side, inside, far outside; a cell = (structure, route/kind)')
+RULE_HIST = ('random operation histories (update / copy / assign / derivative / evaluate / reconfigure / destroy) from VERIF_SEED; every reply is compared; '
+             'a cell = (operation kind, structure class); histories are distinct by construction (independent draws)')
+RULE_OPT = ('optimizer configurations: order x N x dimension x time-map type/instance x spatial-map type/instance x flag set x weight x resolution, '
+            'cost functors from a parametrised polynomial family using every argument; a cell = distinct configuration tuple')
 
 REGISTRY = {
     'C01': dict(level='proof', run=ps.c01, rule=RULE_SPLINE),
@@ -14,4 +23,16 @@ REGISTRY = {
     'C13': dict(level='translation_validation', run=ps.c13, rule=RULE_SPLINE),
     'C14': dict(level='proof', run=ps.c14, rule=RULE_SPLINE),
     'C18': dict(level='other', run=ps.c18, rule=RULE_SPLINE),
+    'C03': dict(level='proof', run=pp.c03, rule=RULE_PP),
+    'C11': dict(level='proof', run=pp.c11, rule=RULE_HIST),
+    'C20': dict(level='proof', run=pp.c20, rule=RULE_PP),
+    'C07': dict(level='proof', run=po.c07, rule=RULE_OPT),
+    'C08': dict(level='proof', run=po.c08, rule=RULE_OPT),
+    'C09': dict(level='proof', run=po.c09, rule=RULE_OPT),
+    'C10': dict(level='proof', run=po.c10, rule=RULE_HIST),
+    'C12': dict(level='proof', run=po.c12, rule=RULE_OPT),
+    'C15': dict(level='proof', run=po.c15, rule=RULE_HIST),
+    'C16': dict(level='proof', run=po.c16, rule=RULE_OPT),
+    'C17': dict(level='proof', run=po.c17, rule=RULE_PP),
+    'C19': dict(level='proof', run=po.c19, rule=RULE_OPT),
 }
